@@ -19,11 +19,11 @@ from mc.spec.build import E, T, times, take
 LEVEL = "model_checking"
 
 BASE_DECL = {"A": ["K", "M"], "B": ["K", "N"], "C": ["M", "N"], "D": ["M", "N"], "I": ["W"], "F": ["S"],
-             "DQ": ["Q"], "DI": ["I", "J"], "G": ["I", "J"]}
+             "DQ": ["Q"], "DI": ["I", "J"], "G": ["I", "J"], "D3": ["K", "M", "N"], "G3": ["K", "M", "N"]}
 EXTENTS = {"K": 2, "M": 2, "N": 1, "W": 3, "S": 2, "Q": 2, "P": 1, "I": 2, "J": 1}
 EXTENTS2 = {"K": 1, "M": 2, "N": 2, "W": 3, "S": 2, "Q": 2, "P": 1, "I": 2, "J": 2}
-DEFAULT_SRC = {"M,N": "D", "Q": "DQ", "I,J": "DI"}
-MN, QQ, IJ = ["M", "N"], ["Q"], ["I", "J"]
+DEFAULT_SRC = {"M,N": "D", "Q": "DQ", "I,J": "DI", "K,M,N": "D3"}
+MN, QQ, IJ, KMN = ["M", "N"], ["Q"], ["I", "J"], ["K", "M", "N"]
 
 
 def prod(o):
@@ -61,18 +61,32 @@ EVENTS = {
     "rank0": (MN, [], lambda o, x: E(o, [], times(T(x, "m", "n"), T("C", "m", "n"))), {}),
     # a second index-math Einsum relating the same ranks differently, and one chained on a [Q] tensor
     "conv2": (None, ["Q"], lambda o, x: E(o, ["q"], times(T("I", {"q": 2, "s": 1}), T("F", "s"))), {}),
+    # two-level partitioned convolution: its eager-input statement must be hoisted in whichever position the Einsum is compiled
+    "convb": (None, ["Q"], lambda o, x: E(o, ["q"], times(T("I", {"q": 1, "s": 1}), T("F", "s"))),
+              {"partitioning": {"Q": ["uniform_shape(4)", "uniform_shape(2)"], "W": ["follow(Q)"]}, "loop-order": ["Q2", "Q1", "W0", "Q0"]}),
     "convc": (QQ, ["P"], lambda o, x: E(o, ["p"], times(T(x, {"p": 1, "s": 1}), T("F", "s"))), {}),
+    # outputs flattened over three ranks / flattened from a layout that needs a swizzle first / with two partitioning groups
+    "flat3": (KMN, ["K", "M", "N"], lambda o, x: E(o, ["k", "m", "n"], times(T(x, "k", "m", "n"), T("G3", "k", "m", "n"))),
+              {"partitioning": {"(K, M, N)": ["flatten()"], "KMN": ["uniform_occupancy(G3.2)"]}, "loop-order": ["KMN1", "KMN0"]}),
+    "flat3b": (KMN, ["K", "M", "N"], lambda o, x: E(o, ["k", "m", "n"], times(T(x, "k", "m", "n"), T("G3", "k", "m", "n"))),
+               {"partitioning": {"(M, N)": ["flatten()"]}, "loop-order": ["K", "MN"]}),
+    "copy3": (KMN, ["K", "M", "N"], lambda o, x: E(o, ["k", "m", "n"], times(T(x, "k", "m", "n"))), {}),
+    "flat2swz": (MN, ["M", "N"], lambda o, x: ew(o, x), {"partitioning": {"(M, N)": ["flatten()"]}, "loop-order": ["MN"], "rank-order": ["N", "M"]}),
+    "flat3swz": (KMN, ["K", "M", "N"], lambda o, x: E(o, ["k", "m", "n"], times(T(x, "k", "m", "n"), T("G3", "k", "m", "n"))),
+                 {"partitioning": {"(K, N)": ["flatten()"]}, "loop-order": ["M", "KN"], "rank-order": ["K", "M", "N"]}),
     # rank names that collide with the compiler's own suffix conventions
     "ishape": (IJ, ["I", "J"], lambda o, x: E(o, ["i", "j"], times(T(x, "i", "j"), T("G", "i", "j"))),
                {"partitioning": {"I": ["uniform_shape(2)"]}}),
     "iocc": (IJ, ["I", "J"], lambda o, x: E(o, ["i", "j"], times(T(x, "i", "j"), T("G", "i", "j"))),
              {"partitioning": {"I": ["uniform_occupancy(G.1)"]}}),
 }
-QUICK_EVENTS = ["prod", "sum", "take", "copy", "shape2", "shapeK2", "shapeK3", "shapeout", "occ", "flat", "flat2", "swz", "conv", "conv2", "convc", "ishape", "st", "rank0"]
+QUICK_EVENTS = ["prod", "sum", "take", "copy", "shape2", "shapeK2", "shapeK3", "shapeout", "occ", "flat", "flat2", "swz", "conv", "conv2", "convb", "convc", "ishape", "st", "rank0"]
+# quick: the three-rank / swizzled-flatten producers are crossed with each other and with their consumers only
+QUICK_EVENTS3 = ["flat3", "flat3b", "copy3", "flat3swz", "flat2swz", "copy", "flat2"]
 
 
 def out_name(i, ranks):
-    return {"M,N": "T", "Q": "U", "": "S", "P": "V", "I,J": "R"}[",".join(ranks)] + str(i)
+    return {"M,N": "T", "Q": "U", "": "S", "P": "V", "I,J": "R", "K,M,N": "Y"}[",".join(ranks)] + str(i)
 
 
 def histories(events, depth):
@@ -207,6 +221,10 @@ def run(ctx):
     events = QUICK_EVENTS if ctx.quick else list(EVENTS)
     depth = 2
     hs = histories(events, depth)
+    if ctx.quick:
+        seen = {str(h) for h in hs}
+        hs += [h for h in histories(QUICK_EVENTS3, depth) if str(h) not in seen]
+        events = events + [e for e in QUICK_EVENTS3 if e not in events]
     if not ctx.quick:
         # depth 3 over the events that carry shared state across Einsums
         core = ["prod", "sum", "shapeout", "occ", "flat2", "swz", "rank0", "shape2"]
